@@ -435,6 +435,13 @@ func init() {
 		e.assume(tImplies(isNil, tEq(s, mkStr(""))))
 		return ret(&BytesV{Nil: isNil, S: s})
 	}
+	stubs[p+"verifXattrsBlob"] = func(e *Exec, th *Thread, c *CallCtx, a []Val) StubRes {
+		n := constName(a[0])
+		isNil := e.input("bool", n+".nil", SBool)
+		s := e.input("xattrs", n, SBlob)
+		e.assume(tImplies(isNil, tEq(s, mkStr(""))))
+		return ret(&BytesV{Nil: isNil, S: s})
+	}
 	stubs[p+"verifKey"] = func(e *Exec, th *Thread, c *CallCtx, a []Val) StubRes {
 		return ret(e.input("blob", constName(a[0]), SBlob))
 	}
